@@ -6,7 +6,7 @@ import json, os, shutil, subprocess, sys, tempfile
 
 prop, k = sys.argv[1], sys.argv[2]
 src = sys.argv[3] if len(sys.argv) > 3 else f"/tmp/wt/{prop}/out/{k}"
-name = f"{prop}-{k}"
+name = sys.argv[4] if len(sys.argv) > 4 else f"{prop}-{k}"
 dst = f"/verif/seeded/{name}"
 patch, demo = os.path.join(src, "patch.diff"), os.path.join(src, "demo.py")
 scratch = tempfile.mkdtemp(prefix="seed.", dir="/dev/shm")
